@@ -458,3 +458,61 @@ pub fn observe_full(rules: &str, data: &str) -> J {
     obs["exact"] = json!(exact);
     obs
 }
+
+// ---------------------------------------------------------------- parse-tree (C14)
+
+fn strip_locations(j: &mut J) {
+    match j {
+        J::Object(m) => {
+            m.remove("location");
+            for v in m.values_mut() {
+                strip_locations(v);
+            }
+        }
+        J::Array(a) => {
+            for v in a {
+                strip_locations(v);
+            }
+        }
+        _ => {}
+    }
+}
+
+/// `cfn-guard parse-tree --print-json` run in-process on a rules text: the AST with locations
+/// removed, or an error / panic marker
+pub fn parse_tree(rules: &str) -> J {
+    use clap::Parser;
+    let r = catch_unwind(AssertUnwindSafe(|| {
+        let cmd = cfn_guard::commands::CfnGuard::try_parse_from(["cfn-guard", "parse-tree", "--print-json"]);
+        let cmd = match cmd {
+            Ok(c) => c,
+            Err(e) => return Err(format!("args: {}", e)),
+        };
+        let mut w = cfn_guard::utils::writer::Writer::new_with_err(
+            cfn_guard::utils::writer::WriteBuffer::Vec(vec![]),
+            cfn_guard::utils::writer::WriteBuffer::Vec(vec![]),
+        )
+        .map_err(|e| e.to_string())?;
+        let mut rd = cfn_guard::utils::reader::Reader::new(cfn_guard::utils::reader::ReadBuffer::Cursor(
+            std::io::Cursor::new(rules.as_bytes().to_vec()),
+        ));
+        match cmd.execute(&mut w, &mut rd) {
+            Ok(code) => {
+                let out = w.into_string().map_err(|e| e.to_string())?;
+                Ok((code, out))
+            }
+            Err(e) => Err(format!("{}", e)),
+        }
+    }));
+    match r {
+        Err(p) => json!({"kind":"panic","msg":panic_msg(p)}),
+        Ok(Err(e)) => json!({"kind":"err","msg":e}),
+        Ok(Ok((code, out))) => match serde_json::from_str::<J>(&out) {
+            Ok(mut j) => {
+                strip_locations(&mut j);
+                json!({"kind":"ok","code":code,"ast":j})
+            }
+            Err(e) => json!({"kind":"badjson","msg":e.to_string(),"head":out.chars().take(200).collect::<String>()}),
+        },
+    }
+}
